@@ -1309,6 +1309,15 @@ func (fr *Frame) enterLoop(li *loopInfo, pc string, st *State) (string, *State) 
 	names, all := fr.loopWrites(li)
 	if all {
 		fr.havocInterference(st)
+		// havocInterference keeps what no OTHER code can write (private arrays and maps of this invocation); what the
+		// loop body itself writes has changed in earlier iterations all the same
+		for _, h := range fr.loopStoreHeaps(li) {
+			if h == "*" || strings.HasPrefix(h, "$l.") {
+				continue
+			}
+			st.m[h] = vc.fresh(h, vc.sortOfState(h))
+			li.havocked = append(li.havocked, h)
+		}
 	} else {
 		if names["$store"] {
 			// havoc every heap component written in the loop: determined lazily is unsound, so havoc all known heaps
